@@ -37,6 +37,8 @@ Truthy(v) ==
       [] v.t = "n" -> FALSE
       [] v.t = "s" -> v.s # <<>>
       [] v.t \in {"l", "u"} -> v.l # <<>>
+      [] v.t = "d" -> DOMAIN v.d # {}       \* an empty section / set is falsy like every empty container
+      [] v.t = "e" -> v.e # {}
       [] OTHER -> TRUE
 
 PredHolds(p, x) ==     \* p a "P" value
@@ -202,6 +204,7 @@ Eval(n, o) ==
             ELSE IF nd.fp = 0 THEN Call(nd.f, <<s.v>>)
             ELSE LET p == Eval(nd.fp, o) IN IF ~p.ok THEN p ELSE Call(nd.f, <<s.v, p.v>>)
       [] nd.k = "bind" ->
+            IF Lazy(nd.src, o) THEN IllTyped ELSE      \* a one-shot iterator is no value to bind / match on
             LET s == Eval(nd.src, o) IN
             IF ~s.ok THEN s
             ELSE LET hit == TabFind(nd.lk, s.v)
@@ -216,6 +219,7 @@ Eval(n, o) ==
                  IF hit # 0 THEN Eval(hit, o)
                  ELSE IF nd.dflt = 0 THEN Fail("Switch", {}, "") ELSE Eval(nd.dflt, o)
       [] nd.k = "case" ->
+            IF Lazy(nd.d, o) THEN IllTyped ELSE      \* a one-shot iterator is no value to bind / match on
             LET dv == Eval(nd.d, o) IN
             IF ~dv.ok THEN dv
             ELSE LET RECURSIVE Go(_)
@@ -300,6 +304,7 @@ Validate(n, o) ==
                  IF all = {} THEN OkV ELSE KeyNotFound(all)
       [] nd.k = "apply" -> LET v == Validate(nd.src, o) IN IF ~v.ok \/ nd.fp = 0 THEN v ELSE Validate(nd.fp, o)
       [] nd.k = "bind" ->
+            IF Lazy(nd.src, o) THEN IllTyped ELSE      \* a one-shot iterator is no value to bind / match on
             LET v == Validate(nd.src, o) IN
             IF ~v.ok THEN v
             ELSE LET s == Eval(nd.src, o) IN
@@ -316,6 +321,7 @@ Validate(n, o) ==
                  IF hit # 0 THEN Validate(hit, o)
                  ELSE IF nd.dflt = 0 THEN Fail("Switch", {}, "") ELSE Validate(nd.dflt, o)
       [] nd.k = "case" ->
+            IF Lazy(nd.d, o) THEN IllTyped ELSE      \* a one-shot iterator is no value to bind / match on
             LET v == Validate(nd.d, o) IN
             IF ~v.ok THEN v
             ELSE LET dv == Eval(nd.d, o) IN
@@ -384,6 +390,7 @@ KeysOf(n, o) ==
                  ELSE OkK(pk.ks \cup UNION {r.ks : r \in rs})
       [] nd.k = "apply" -> IF nd.fp = 0 THEN KeysOf(nd.src, o) ELSE UnionK(<<KeysOf(nd.src, o), KeysOf(nd.fp, o)>>)
       [] nd.k = "bind" ->
+            IF Lazy(nd.src, o) THEN IllTyped ELSE      \* a one-shot iterator is no value to bind / match on
             LET ks == KeysOf(nd.src, o) IN
             IF ~ks.ok THEN ks
             ELSE LET s == Eval(nd.src, o) IN
@@ -400,6 +407,7 @@ KeysOf(n, o) ==
                      tgt == IF hit # 0 THEN hit ELSE nd.dflt IN
                  IF tgt = 0 THEN Fail("Switch", {}, "") ELSE UnionK(<<KeysOf(tgt, o), KeysOf(nd.d, o)>>)
       [] nd.k = "case" ->
+            IF Lazy(nd.d, o) THEN IllTyped ELSE      \* a one-shot iterator is no value to bind / match on
             LET ks == KeysOf(nd.d, o) IN
             IF ~ks.ok THEN ks
             ELSE LET dv == Eval(nd.d, o) IN
@@ -471,6 +479,7 @@ Explain(n, o) ==
             ELSE OkK(pk.ks \cup refs \cup UNION {IF Has(p, o) THEN RefsTrans(Get(p, o), o) ELSE {} : p \in refs})
       [] nd.k = "apply" -> IF nd.fp = 0 THEN Explain(nd.src, o) ELSE UnionK(<<Explain(nd.src, o), Explain(nd.fp, o)>>)
       [] nd.k = "bind" ->
+            IF Lazy(nd.src, o) THEN IllTyped ELSE      \* a one-shot iterator is no value to bind / match on
             LET ks == Explain(nd.src, o) IN
             IF ~ks.ok THEN ks
             ELSE LET s == Eval(nd.src, o) IN
@@ -487,6 +496,7 @@ Explain(n, o) ==
                      tgt == IF hit # 0 THEN hit ELSE nd.dflt IN
                  IF tgt = 0 THEN Insufficient ELSE UnionK(<<Explain(tgt, o), Explain(nd.d, o)>>)
       [] nd.k = "case" ->
+            IF Lazy(nd.d, o) THEN IllTyped ELSE      \* a one-shot iterator is no value to bind / match on
             LET ks == Explain(nd.d, o) IN
             IF ~ks.ok THEN ks
             ELSE LET dv == Eval(nd.d, o) IN
